@@ -234,7 +234,10 @@ func tamperBalance(d int64) func(e *cpEdit) string {
 		}
 		addr := e.rec(r).Address
 		var st basics.Status
-		e.modBase(addr, func(b *trackerdb.BaseAccountData) { b.MicroAlgos.Raw = uint64(int64(b.MicroAlgos.Raw) + d); st = b.Status })
+		e.modBase(addr, func(b *trackerdb.BaseAccountData) {
+			b.MicroAlgos.Raw = uint64(int64(b.MicroAlgos.Raw) + d)
+			st = b.Status
+		})
 		desc := fmt.Sprintf("account %s micro-algos %+d", shortAddr(addr), d)
 		if e.fixup {
 			// keep the money totals true: the opposite change on another account of the same status
